@@ -38,7 +38,7 @@ impl ToTokens for FromTypeParamImpl<'_> {
         let passed_bounds = self
             .bounds
             .as_ref()
-            .map(|i| quote!(#i: #input.bounds.clone().into_iter().collect::<Vec<_>>(),));
+            .map(|i| quote!(#i: #input.bounds.clone().into_iter().collect::<::darling::export::Vec<_>>(),));
         let passed_default = self
             .default
             .as_ref()
